@@ -62,8 +62,8 @@ for _k in (0, 1, 2):
     _mk(_k)
 
 
-def _render_contract(depth, required_top):
-    @contract(EXT + ":BlockNode.render_to_output", prop="C18", name=f"BlockNode.render_to_output[stack-{depth},top-required={required_top}]")
+def _render_contract(depth, required_top, sfx=""):
+    @contract(EXT + ":BlockNode.render_to_output" + sfx, prop="C18", name=f"BlockNode.render_to_output{sfx}[stack-{depth},top-required={required_top}]")
     def rto(c):
         items = [mk_item(c, f"def{i}", VBool(z3.BoolVal(required_top if i == 0 else False))) for i in range(depth)]
         for i in range(depth - 1):
@@ -76,8 +76,8 @@ def _render_contract(depth, required_top):
         def block_render(eng, st, args, kwargs):
             st.log.append(("render-block", args[0], args[1]))
             return [(st, VInt(z3.IntVal(0)))]
-        c.summary("liquid.ast:BlockNode.render", block_render)
-        c.summary("liquid.ast:Node.render", block_render)
+        c.summary("liquid.ast:BlockNode.render" + sfx, block_render)
+        c.summary("liquid.ast:Node.render" + sfx, block_render)
         buf = c.obj("io:StringIO", "buffer", __text__=c.str("out"))
         c.call(ctx, buf, self_val=self)
         def post(r):
@@ -108,6 +108,7 @@ def _render_contract(depth, required_top):
 
 for _d, _rq in ((0, False), (1, False), (2, False), (3, False), (1, True), (2, True)):
     _render_contract(_d, _rq)
+    _render_contract(_d, _rq, "_async")
 
 
 @structural("C18", "chain-shape")
